@@ -218,6 +218,49 @@ theorem pluto_geocentric_domain (epochOf yearOf : ℝ → PyRes ℝ) (jde : ℝ)
           obtain ⟨y, hy, hr⟩ := first _ _ _ h2
           exact ⟨_, ep, y, hep, hy, hr⟩
 
+/-- `Angle(asin(x), radians=True)` is an angle in [−90°, 90°], for every `x`. -/
+theorem angle_of_asin_range (x : ℝ) : -90 ≤ angOfRad (pasin x) ∧ angOfRad (pasin x) ≤ 90 := by
+  have h0 := Real.neg_pi_div_two_le_arcsin x
+  have h1 := Real.arcsin_le_pi_div_two x
+  have hpi := Real.pi_pos
+  have e : pdegrees (pasin x) = Real.arcsin x * (180 / Real.pi) := rfl
+  have hk : (0 : ℝ) < 180 / Real.pi := by positivity
+  have hk2 : Real.pi * (180 / Real.pi) = 180 := by field_simp
+  have hd0 : -90 ≤ pdegrees (pasin x) := by rw [e]; nlinarith
+  have hd1 : pdegrees (pasin x) ≤ 90 := by rw [e]; nlinarith
+  unfold angOfRad
+  rw [angReduce_small _ (by rw [abs_lt]; constructor <;> linarith)]
+  exact ⟨hd0, hd1⟩
+
+/-- Shape of Pluto's tables regenerated from the source: 43 rows each, of 3 multipliers / 2 coefficients (the
+    loop pairs row n of the argument table with row n of the three coefficient tables). -/
+theorem pluto_tables_shape :
+    PLUTO_ARGUMENT.map List.length = List.replicate 43 3 ∧ PLUTO_LONGITUDE.map List.length = List.replicate 43 2 ∧
+    PLUTO_LATITUDE.map List.length = List.replicate 43 2 ∧ PLUTO_RADIUS_VECTOR.map List.length = List.replicate 43 2 :=
+  ⟨rfl, rfl, rfl, rfl⟩
+
+/-- Whatever `Pluto.geocentric_position` returns, the right ascension is in [0°, 360°) and the declination in
+    [−90°, 90°]. -/
+theorem pluto_ra_dec_range (epochOf yearOf : ℝ → PyRes ℝ) (jde ra dec : ℝ)
+    (h : pluto_geocentric_position epochOf yearOf jde = .ok (ra, dec)) :
+    0 ≤ ra ∧ ra < 360 ∧ -90 ≤ dec ∧ dec ≤ 90 := by
+  unfold pluto_geocentric_position at h
+  split at h
+  · cases h
+  · split at h
+    · cases h
+    · simp only [] at h
+      split at h
+      · cases h
+      · split at h
+        · cases h
+        · split_ifs at h
+          simp only [Except.ok.injEq, Prod.mk.injEq] at h
+          obtain ⟨h1, h2⟩ := h
+          rw [← h1, ← h2]
+          exact ⟨(angToPositive_range _ (angReduce_abs _).1).1, (angToPositive_range _ (angReduce_abs _).1).2,
+            (angle_of_asin_range _).1, (angle_of_asin_range _).2⟩
+
 /-! ## Minor bodies: "on any elliptic, near-parabolic or parabolic orbit" -/
 
 /-- The three regimes partition the eccentricities of the property, `e ∈ [0, 1]`: elliptic on
